@@ -13,6 +13,9 @@ Open Scope nat_scope.
 Definition tseq_of_run (fb : flat) (r : run) : tseq :=
   map (fun f => match rlookup r f with Some row => row | None => [] end) (seq 0 (length (fl_design fb))).
 
+(** membership in [act_design] (the factors RandomGen samples) *)
+Definition isact (fb : flat) (f : nat) : bool := memb f (fl_act fb).
+
 (** * Fragment predicates *)
 Fixpoint nodupb (xs : list nat) : bool :=
   match xs with [] => true | x :: t => negb (memb x t) && nodupb t end.
@@ -122,13 +125,49 @@ Definition frag1 (fb : flat) : bool :=
     enumerator samples from ([design_partition]: the first with sustain 1); the
     other crossings are enforced by rejection ([__are_constraints_violated]:
     [combinations_mismatched_weights] on every repetition).  All crossings are
-    over plain factors, without preamble and with sustain 1. *)
+    over plain factors, without preamble and with sustain 1.
+
+    Implied factors: [act_design] (the factors RandomGen samples) may leave out
+    derived factors of the design that nothing uses; they must be within-trial
+    factors reading factors of [act_design] through a table in which exactly one
+    level accepts every argument tuple.  Their rows are not part of the
+    candidate; [FragSem.cand_seq] adds them ([Block.add_implied_levels]). *)
 Definition level_weight_nat (fb : flat) (f l : nat) : nat :=
   match nth_error (levels_of fb f) l with Some lv => lv_weight lv | None => 1 end.
 Definition combo_weight (fb : flat) (di : asg) : nat :=
   fold_right (fun p acc => level_weight_nat fb (fst p) (snd p) * acc) 1 di.
 Definition crossing_plain (fb : flat) (c : list nat) : bool :=
-  nodupb c && forallb (fun f => f <? length (fl_design fb)) c.
+  nodupb c && forallb (isact fb) c.
+Definition constraint_f2 (fb : flat) (k : fconstraint) : bool :=
+  match k with
+  | FCross | FConsistency | FMinimumTrials _ | FDerivation _ _ _ => true
+  | FExclude f l => isact fb f && (l <? nlevels fb f)
+  | FAtMost _ f l wb | FAtLeast _ f l wb | FExactlyK _ f l wb | FExactlyKInARow _ f l wb =>
+    isact fb f && (l <? nlevels fb f) && geom_ok fb wb
+  | FPin _ f l wb => isact fb f && (l <? nlevels fb f) && geom_ok fb wb && (geometry_sustain fb wb f =? 1)
+  | FSequential f => isact fb f && (0 <? nlevels fb f)
+  | _ => false
+  end.
+(** [act_design] lists its factors in design order, each once *)
+Definition act_sorted (fb : flat) : bool :=
+  nat_list_eqb (fl_act fb) (filter (isact fb) (seq 0 (length (fl_design fb)))).
+Definition basic_fd (fd : ffactor) : bool :=
+  match ff_window fd with None => negb (ff_complex fd) | Some _ => false end.
+(** exactly one level of [f] accepts every tuple of levels of the factors it reads *)
+Definition tables_exact (fb : flat) (f : nat) (w : fwindow) : bool :=
+  forallb (fun args => length (filter (fun l => predicate fb f l (map (fun a => [Some a]) args)) (all_levels fb f)) =? 1)
+          (product (map (all_levels fb) (win_deps w))).
+Definition implied_fd (fb : flat) (f : nat) (fd : ffactor) : bool :=
+  match ff_window fd with
+  | Some w => negb (ff_complex fd) && (win_width w =? 1) && (win_stride w =? 1) && (win_start w =? 0)
+              && forallb (isact fb) (win_deps w) && tables_exact fb f w
+  | None => false
+  end.
+Definition factors_ok (fb : flat) : bool :=
+  forallb (fun p => if isact fb (fst p) then basic_fd (snd p) else implied_fd fb (fst p) (snd p))
+          (combine (seq 0 (length (fl_design fb))) (fl_design fb)).
+Definition act_levels_nonempty (fb : flat) : bool :=
+  forallb (fun f => 0 <? length (nonexcluded_levels fb f)) (fl_act fb).
 Definition crossing_size_ok (fb : flat) (cs : list nat * nat) : bool :=
   (snd cs =? list_sum (map (fun ls => combo_weight fb (combine (fst cs) ls)) (allowed_combos fb (fst cs)))) && (0 <? snd cs).
 Definition plain_crossings (fb : flat) : bool :=
@@ -140,8 +179,8 @@ Definition plain_crossings (fb : flat) : bool :=
   && (length (fl_sizes fb) =? k) && forallb (crossing_size_ok fb) (combine (fl_crossings fb) (fl_sizes fb)).
 
 Definition frag2 (fb : flat) : bool :=
-  plain_crossings fb && forallb (constraint_f1 fb) (fl_constraints fb) && exclude_consistent fb
-  && all_active fb && all_basic fb && free_levels_nonempty fb
+  plain_crossings fb && forallb (constraint_f2 fb) (fl_constraints fb) && exclude_consistent fb
+  && act_sorted fb && factors_ok fb && act_levels_nonempty fb
   && ((0 <? fl_trials fb) || (no_rejecting_constraints fb && (length (fl_crossings fb) =? 1))).
 
 (** the part of F1 / F2 in which no candidate is ever rejected *)
